@@ -88,6 +88,10 @@ func (p *Prog) JS() string {
 			k := js(op[1])
 			fmt.Fprintf(&sb, "if (typeof bs[%s] !== \"object\" || bs[%s] === null || Array.isArray(bs[%s])) { bs[%s] = {}; }\nbs[%s][%s] = %s;\n",
 				k, k, k, k, k, js(op[2]), js(op[3]))
+		case "markdeep":
+			// an in-place update of every object nested in bs[k], through arrays and objects alike
+			fmt.Fprintf(&sb, "if (%s in bs) { (function mk(x) { if (Array.isArray(x)) { for (var i = 0; i < x.length; i++) { mk(x[i]); } } else if (x !== null && typeof x === \"object\") { for (var kk in x) { mk(x[kk]); } x[%s] = %s; } })(bs[%s]); }\n",
+				js(op[1]), js(op[2]), js(op[3]), js(op[1]))
 		case "rejectUnless":
 			fmt.Fprintf(&sb, "if (!(%s in bs)) { return null; }\n", js(op[1]))
 		case "rejectIf":
@@ -159,11 +163,17 @@ func (g *G) boom() string {
 }
 
 func (g *G) litValue() interface{} {
-	switch g.Intn(6) {
+	switch g.Intn(7) {
 	case 0:
 		return map[string]interface{}{"k": g.Scalar()}
 	case 1:
 		return []interface{}{g.Scalar(), 1.0}
+	case 2:
+		// objects inside arrays (inside objects): where a copy that is one level short shows
+		if g.P(1, 2) {
+			return []interface{}{map[string]interface{}{"id": g.Scalar()}, []interface{}{map[string]interface{}{"k": 1.0}}}
+		}
+		return map[string]interface{}{"items": []interface{}{map[string]interface{}{"id": g.Scalar()}, 2.0}}
 	default:
 		return g.Scalar()
 	}
@@ -178,7 +188,9 @@ func (g *G) Action(guard bool, mode string) *Prog {
 	}
 	n := 1 + g.Intn(4)
 	for i := 0; i < n; i++ {
-		switch g.Intn(13) {
+		switch g.Intn(14) {
+		case 13:
+			p.Ops = append(p.Ops, []interface{}{"markdeep", g.PickS("keep!", "cfg!", "note", "t", "?x", "flag"), g.PickS("seen", "id", "k"), g.Scalar()})
 		case 0, 1:
 			p.Ops = append(p.Ops, []interface{}{"set", g.PickS(bkeys...), g.litValue()})
 		case 2:
@@ -259,6 +271,8 @@ var msgVocab = []interface{}{
 	[]interface{}{1.0, 2.0},
 	map[string]interface{}{"t": "b"},
 	true,
+	map[string]interface{}{"k": []interface{}{map[string]interface{}{"id": 1.0}, map[string]interface{}{"id": 2.0}}},
+	map[string]interface{}{"likes": map[string]interface{}{"items": []interface{}{map[string]interface{}{"id": "a"}}}},
 }
 
 func (g *G) Msg() interface{} {
@@ -307,6 +321,9 @@ var bsPatterns = []interface{}{
 	map[string]interface{}{"t": []interface{}{1.0}},
 	map[string]interface{}{"note": []interface{}{1.0, "?other"}},
 	map[string]interface{}{"count": []interface{}{1.0}},
+	map[string]interface{}{"?x": []interface{}{map[string]interface{}{"seen": "?s"}}},
+	map[string]interface{}{"keep!": []interface{}{map[string]interface{}{"seen": "?s"}}},
+	map[string]interface{}{"lastBindings": map[string]interface{}{"?x": []interface{}{map[string]interface{}{"seen": "?s"}}}},
 }
 
 func (g *G) target() string {
@@ -436,7 +453,64 @@ func (g *G) Bindings(mode string) map[string]interface{} {
 	return bs
 }
 
+// RecoveryCase is a scenario template: a message binds a structured value (arrays of objects), an
+// action fails, and the node that handles the failure updates nested values of the bindings in
+// place before the machine carries on.  What is random: the programs around the fixed skeleton,
+// the handling style, the messages.
+func (g *G) RecoveryCase(mode string) WalkCase {
+	work := g.Action(false, mode)
+	work.Lang = "es"
+	if g.P(3, 4) {
+		work.Ops = append(work.Ops, []interface{}{"fail", g.boom()})
+	}
+	key := g.PickS("?x", "keep!", "?x")
+	fix := g.Action(false, mode)
+	fix.Lang = g.PickS("es", "es", "native")
+	fix.Ret = "bs"
+	fix.Ops = append([][]interface{}{{"markdeep", key, g.PickS("seen", "id"), g.Scalar()}}, fix.Ops...)
+	if g.P(1, 2) {
+		fix.Ops = append(fix.Ops, []interface{}{"markdeep", "lastBindings", "again", g.Scalar()})
+	}
+	s := &SpecD{Name: "recovery", Nodes: map[string]*NodeD{
+		"start": {Branching: &BranchingD{Type: "message", Branches: []BranchD{
+			{Pattern: map[string]interface{}{"k": "?x"}, Target: "a"},
+			{Pattern: map[string]interface{}{"likes": "?x"}, Target: "a"}}}},
+		"a": {Action: work, Branching: &BranchingD{Type: "bindings", Branches: []BranchD{{Target: g.PickS("start", "b")}}}},
+		"b": {Action: fix, Branching: &BranchingD{Type: "bindings", Branches: []BranchD{
+			{Pattern: DeepCopy(bsPatterns[g.Intn(len(bsPatterns))]), Target: "start"}, {Target: "start"}}}},
+	}}
+	switch g.Intn(3) {
+	case 0:
+		s.ActionErrorNode = "b"
+	case 1:
+		s.ActionErrorBranches = true
+		s.Nodes["a"].Branching.Branches = append([]BranchD{{Pattern: map[string]interface{}{"actionError": "?err"}, Target: "b"}}, s.Nodes["a"].Branching.Branches...)
+	default:
+		s.Nodes["error"] = &NodeD{Action: fix, Branching: &BranchingD{Type: "bindings", Branches: []BranchD{{Target: "start"}}}}
+	}
+	c := WalkCase{Spec: s, Profile: mode, St: StateD{Node: "start", Bs: g.Bindings(mode)}}
+	if c.St.Bs == nil {
+		c.St.Bs = map[string]interface{}{}
+	}
+	delete(c.St.Bs, "?x")
+	c.St.Bs["keep!"] = []interface{}{map[string]interface{}{"id": g.Scalar()}, []interface{}{map[string]interface{}{"k": 1.0}}}
+	c.Msgs = []interface{}{}
+	for i, n := 0, 2+g.Intn(3); i < n; i++ {
+		if g.P(2, 3) {
+			c.Msgs = append(c.Msgs, DeepCopy(msgVocab[len(msgVocab)-1-g.Intn(2)]))
+		} else {
+			c.Msgs = append(c.Msgs, g.Msg())
+		}
+	}
+	l := 12
+	c.Limit = &l
+	return c
+}
+
 func (g *G) WalkCase(mode string) WalkCase {
+	if mode == "persist" && g.P(1, 3) || mode != "timeouts" && g.P(1, 10) {
+		return g.RecoveryCase(mode)
+	}
 	c := WalkCase{Spec: g.Spec(mode), Profile: mode}
 	names := []string{}
 	for _, n := range nodeNames {
